@@ -97,6 +97,9 @@ func canary(h http.Handler) {
 	}
 	l := Do(h, Req{Method: "GET", Path: "/bkt"})
 	vsym.Assert(l.Code() == 200, "C09/canary-list")
+	// the multipart machinery still answers too
+	id := initiate(h, "canary-mpu", http.Header{})
+	vsym.Assert(Do(h, Req{Method: "DELETE", Path: "/bkt/canary-mpu", Query: url.Values{"uploadId": {id}}}).Code() == 204, "C09/canary-multipart")
 }
 
 // VH_C09: one request from the grammar of the routed surface against a rich state.
@@ -242,6 +245,11 @@ func VH_C09() {
 			body = []byte("plain")
 		}
 		hdr.Set("Content-Length", itoa(len(body)))
+	}
+	if q.Get("uploadId") != "" && method == "PUT" && body == nil {
+		// a part upload needs a body to get past the length check
+		body = []byte("x")
+		hdr.Set("Content-Length", "1")
 	}
 	rq := Req{Method: method, Path: path, Query: q, Header: hdr}
 	if body != nil {
